@@ -80,9 +80,12 @@ pub fn shrink_scenario_case(case: &Case) -> Vec<Case> {
 pub fn shrink_scenario(sc: &Scenario) -> Vec<Scenario> {
     let n = sc.events.len();
     let mut out: Vec<Scenario> = Vec::new();
-    // 1. drop chunks (halves, quarters, ...), from the end first
+    // 1. drop chunks (halves, quarters, ...), from the end first. Candidates are
+    // whole scenarios (serialised for every trial), so their number is capped;
+    // after every accepted candidate the list is rebuilt for the smaller scenario.
+    let cap = if n > 64 { 160 } else { 600 };
     let mut chunk = n / 2;
-    while chunk >= 1 {
+    while chunk >= 1 && out.len() < cap {
         let mut start = n.saturating_sub(chunk);
         loop {
             let mut ev = sc.events.clone();
@@ -92,7 +95,7 @@ pub fn shrink_scenario(sc: &Scenario) -> Vec<Scenario> {
                 knobs: sc.knobs.clone(),
                 events: ev,
             });
-            if start == 0 {
+            if start == 0 || out.len() >= cap {
                 break;
             }
             start = start.saturating_sub(chunk);
@@ -101,9 +104,9 @@ pub fn shrink_scenario(sc: &Scenario) -> Vec<Scenario> {
             break;
         }
         chunk /= 2;
-        if out.len() > 400 {
-            break;
-        }
+    }
+    if n > 64 {
+        return out;
     }
     // 2. drop a Send together with the Deliver that follows it
     for i in 0..n {
